@@ -5,7 +5,7 @@ func init() {
 		info: PropInfo{
 			Bounds: []string{
 				"decode kernel: horizontal zoom case-split over 1..31 (quick: 1..8, 12, 16, 24, 31), quadkey symbolic over all bits; encode kernel: zooms 1..16 (quick: 1..8, 10, 12), x and y symbolic over all bits, loops merged under an unwinding check",
-				"entry points: round trip at equal zooms for z in {1,2,3,5,12}, v in {0,3,25}; different output zooms with zoom difference <= 2 per axis on 1..2 IDs, double-report freedom through a symbolic probe cell",
+				"entry points: round trip at equal zooms for z in {1,2,3,5,12}, v in {0,3,25}; different output zooms with zoom difference <= 2 per axis on 1..2 IDs of equal zoom and on a fine ID followed by a one-level-coarser ID, double-report freedom through a symbolic probe cell",
 				"maxHeight == minHeight (plain vertical zoom) in the entry-point harnesses; the height-range (bit) form is C17",
 			},
 			Outside: []string{"encode kernel at zooms 17..31 with all bits symbolic (merged-loop query: solver unknown at 300 s; forked: > 1000 paths per zoom): there only the 6 most significant bits of x and y are symbolic (zooms 17, 24, 31 quick; 17, 20, 24, 28, 30, 31 thorough) — the decode kernel and the bijectivity of the reference cover 1..31 fully", "lists longer than 2", "zoom differences above 2", "entry points at horizontal zooms above 12 (path count grows as zoom^2)"},
@@ -54,8 +54,18 @@ func init() {
 			if tier == "thorough" {
 				zc = append(zc, [5]int{5, 5, 6, 6, 2}, [5]int{6, 26, 5, 25, 2}, [5]int{4, 4, 6, 4, 1})
 			}
+			mixes := [][4]int{{3, 2, 3, 2}, {2, 1, 2, 2}}
+			if tier == "thorough" {
+				mixes = append(mixes, [4]int{3, 3, 4, 3})
+			}
+			for _, c := range mixes {
+				in := mk("transform", "VerifC11Zoomed", cs("z", c[0], "v", c[1], "oz", c[2], "ov", c[3], "n", 2, "mix", 1))
+				in.Unwind = 80
+				in.MaxSeconds = 1200
+				is = append(is, in)
+			}
 			for _, c := range zc {
-				in := mk("transform", "VerifC11Zoomed", cs("z", c[0], "v", c[1], "oz", c[2], "ov", c[3], "n", c[4]))
+				in := mk("transform", "VerifC11Zoomed", cs("z", c[0], "v", c[1], "oz", c[2], "ov", c[3], "n", c[4], "mix", 0))
 				in.Unwind = 80
 				in.MaxSeconds = 1200
 				is = append(is, in)
@@ -71,7 +81,7 @@ func init() {
 				tvs = append(tvs, &TV{Harness: "VerifC11Decode", PkgDir: "transform", Unwind: 40, Case: cs("z", z), Inputs: map[string]string{"q": i2s(r.rangeI(0, (1<<(2*z))-1))}})
 			}
 			tvs = append(tvs, &TV{Harness: "VerifC11RoundTrip", PkgDir: "transform", Unwind: 40, Case: cs("z", 20, "v", 23), Inputs: map[string]string{"x": "85263", "y": "65423", "f": "-5"}})
-			tvs = append(tvs, &TV{Harness: "VerifC11Zoomed", PkgDir: "transform", Unwind: 80, Case: cs("z", 2, "v", 2, "oz", 3, "ov", 3, "n", 1), Inputs: map[string]string{"x0": "3", "y0": "1", "f0": "-2", "px": "6", "py": "3", "pf": "-3"}})
+			tvs = append(tvs, &TV{Harness: "VerifC11Zoomed", PkgDir: "transform", Unwind: 80, Case: cs("z", 2, "v", 2, "oz", 3, "ov", 3, "n", 1, "mix", 0), Inputs: map[string]string{"x0": "3", "y0": "1", "f0": "-2", "px": "6", "py": "3", "pf": "-3"}})
 			return tvs
 		},
 	}
